@@ -66,6 +66,11 @@ M = [
  ('add-objective-no-invalidate', 'stage.py', '        self._set_transcribed(False)\n        self._objective = self._objective + term', '        self._objective = self._objective + term', ['C13']),
  ('method-inherit-solver', 'direct_method.py', "        if template and template._solver_options is not None:\n            self._solver_options = template._solver_options", "        if template and template._solver_options is not None:\n            self._solver_options = {}", ['C13']),
  ('set-initial-not-reapplied', 'stage.py', "            self._method.set_initial(self._augmented, self.master._method, self._initial)", "            pass", ['C13']),
+ # --- C18
+ ('load-drops-guesses', 'ocp.py', "            return pickle.load(open(name,\"rb\"))", "            r = pickle.load(open(name,\"rb\"))\n            r._initial = type(r._initial)()\n            return r", ['C18']),
+ ('pickle-drops-solver-options', 'direct_method.py', "    def clean(self):\n        self.V = None\n        self.P = []\n", "    def clean(self):\n        self.V = None\n        self.P = []\n\n    def __getstate__(self):\n        d = dict(self.__dict__)\n        d['_solver_options'] = {}\n        return d\n", ['C18']),
+ ('pickle-param-value-order', 'stage.py', "    def iter_stages(self, include_self=False):", "    def __setstate__(self, d):\n        self.__dict__.update(d)\n        ks = list(self._param_vals.keys())\n        if len(ks) >= 2:\n            a, b = self._param_vals[ks[0]], self._param_vals[ks[1]]\n            if DM(a).shape == DM(b).shape:\n                self._param_vals[ks[0]], self._param_vals[ks[1]] = b, a\n\n    def iter_stages(self, include_self=False):", ['C18']),
+ ('save-damages-original', 'ocp.py', "    def save(self,name):\n        self._untranscribe()", "    def save(self,name):\n        self._untranscribe()\n        self._initial = type(self._initial)()", ['C18']),
 ]
 
 def main():
